@@ -513,7 +513,10 @@ func goMechs(src string) []string {
 	return nil
 }
 
-func judgeBondgo(src string, rsize int, mpm bool, probe bool, unfit bool) (out pbt.Outcome) {
+// judgeBondgo runs the compiler and validates what it saved. inMech: the program is, by construction, one whose
+// assembly bondgo's own assembler refuses (the recorded swallow mechanism); for any other program a swallowed
+// assembler error means that the machine bondgo inferred does not hold the program it compiled.
+func judgeBondgo(src string, rsize int, mpm bool, inMech bool, unfit bool) (out pbt.Outcome) {
 	if os.Getenv("VERIF_TOOLS") == "" {
 		out.Excluded = "no-tools"
 		return
@@ -567,7 +570,11 @@ func judgeBondgo(src string, rsize int, mpm bool, probe bool, unfit bool) (out p
 	}
 	if f != nil {
 		if swallowed {
-			f.Sig = sigBondgoSwallow
+			if inMech {
+				f.Sig = sigBondgoSwallow
+			} else {
+				f.Sig = "bondgo-inadequate:" + f.Sig
+			}
 			f.Msg = "bondgo printed an assembler error, saved the machine all the same and exited 0: " + firstErrLine(r.Stdout) + "; " + f.Msg
 		}
 		f.Msg += "\n" + src
@@ -606,7 +613,7 @@ func propGo(c GoCase) pbt.Outcome {
 	if x := excluded(c.Probe, goMechs(c.Src)); x != "" {
 		return pbt.Outcome{Excluded: x}
 	}
-	return judgeBondgo(c.Src, c.Rsize, c.Mpm, c.Probe, false)
+	return judgeBondgo(c.Src, c.Rsize, c.Mpm, len(goMechs(c.Src)) > 0, false)
 }
 
 // ---------------------------------------------------------------------------
@@ -629,7 +636,7 @@ func propUnfit(c UnfitCase) pbt.Outcome {
 		return out
 	}
 	if c.Tool == "bondgo" {
-		o := judgeBondgo(c.Src, c.Rsize, c.Mpm, c.Probe, true)
+		o := judgeBondgo(c.Src, c.Rsize, c.Mpm, true, true)
 		o.Labels = addLabels(o.Labels, out.Labels...)
 		if o.Fail == nil && o.Excluded == "" {
 			o.NonTrivial = true
